@@ -8,7 +8,7 @@
    are day numbers, X and the sample rate live in an arbitrary type R with a
    decidable "less than" rlt (no hypothesis on it is needed). *)
 From Coq Require Import String.
-From Coq Require Import List ZArith NArith Bool.
+From Coq Require Import List ZArith NArith Bool Permutation.
 From Tele Require Import Lib.Bytes Lib.Calendar Gen.Consts Model.Mode Model.Gating
   Proofs.ModeFacts Proofs.DateOrder Proofs.GatingFacts Proofs.RunFacts Proofs.SpecFacts.
 Import ListNotations.
@@ -74,6 +74,14 @@ Theorem C02_earliest_is_min : forall bs : list Z,
   let r := fold_left upd_earliest bs zero_ns in (forall b, In b bs -> r <= b) /\ In r bs.
 Proof. exact earliest_is_min. Qed.
 Print Assumptions C02_earliest_is_min.
+
+(* ... whatever the order in which local/ lists the week's files (by program
+   name, not by begin date) *)
+Theorem C02_earliest_order_independent : forall bs bs' : list Z,
+  Permutation bs bs' -> (forall b, In b bs -> b <> zero_ns) ->
+  fold_left upd_earliest bs zero_ns = fold_left upd_earliest bs' zero_ns.
+Proof. exact earliest_order_independent. Qed.
+Print Assumptions C02_earliest_order_independent.
 
 (* in a run, a report without the "local." prefix is created only for a week
    whose uploadOK is true *)
@@ -307,6 +315,23 @@ Example C02_example_asof_eq_begin :
   posts_of (fst (run Z Z.ltb 0 ex_cfg (ex_fs "on 2024-01-02"))) = [] /\
   posts_of (fst (run Z Z.ltb 0 ex_cfg (ex_fs "on 2024-01-01"))) = [s2b "2024-01-07"].
 Proof. vm_compute. split; reflexivity. Qed.
+
+(* two programs in one week, the one listed first began later (2024-01-04) than
+   the other (2024-01-02): an opt-in date of 2024-01-02 or 2024-01-03 keeps the
+   week local, whichever file is listed first *)
+Definition ex_fs2 (mode : string) (swap : bool) : fstate :=
+  let a := {| lf_name := s2b "aaa@v1-go1.23-linux-amd64-2024-01-04.v1.count";
+              lf_span := Some (day_ns (ex_day 2024 1 4), day_ns (ex_day 2024 1 7)); lf_counts := true |} in
+  let z := {| lf_name := s2b "zzz@v1-go1.23-linux-amd64-2024-01-02.v1.count";
+              lf_span := Some (day_ns (ex_day 2024 1 2), day_ns (ex_day 2024 1 7)); lf_counts := true |} in
+  {| fs_mode := Some (s2b mode); fs_local := Some (if swap then [z; a] else [a; z]); fs_upload := None |}.
+Example C02_example_two_programs :
+  posts_of (fst (run Z Z.ltb 0 ex_cfg (ex_fs2 "on 2024-01-03" false))) = [] /\
+  posts_of (fst (run Z Z.ltb 0 ex_cfg (ex_fs2 "on 2024-01-03" true))) = [] /\
+  posts_of (fst (run Z Z.ltb 0 ex_cfg (ex_fs2 "on 2024-01-02" false))) = [] /\
+  posts_of (fst (run Z Z.ltb 0 ex_cfg (ex_fs2 "on 2024-01-01" false))) = [s2b "2024-01-07"] /\
+  spec_post_allowed Z Z.ltb 0 ex_cfg (ex_fs2 "on 2024-01-03" false) (s2b "2024-01-07") = false.
+Proof. vm_compute. repeat split; reflexivity. Qed.
 
 Example C02_example_local_and_off :
   posts_of (fst (run Z Z.ltb 0 ex_cfg (ex_fs "local 2023-12-30"))) = [] /\
